@@ -380,7 +380,10 @@ static void prop_pss_forge(Tape &t, Ctx &c) {
     if (plus_n) { B sn = ox::bn_add(sig, pk->n); if (ox::bn_strip(sn).size() <= k) sig = ox::bn_pad(sn, k); else { plus_n = false; edit = PE_NONE; } }
     B rec = ox::rsa_raw_pub(pk->ok, sig);
     B sent = sig; bool lead_zero = false;
-    if (siglen_delta) { if (t.coin()) { sent = cat(B(siglen_delta, 0), sig); lead_zero = true; } else sent.assign(sig.begin() + siglen_delta, sig.end()); }
+    if (siglen_delta) {
+        if (t.coin()) { sent = cat(B(siglen_delta, 0), sig); lead_zero = true; }
+        else { sent.assign(sig.begin() + siglen_delta, sig.end()); lead_zero = ox::bn_cmp(sent, sig) == 0; }   // dropped octets were zero: still the same integer
+    }
     if (siglen_delta && !lead_zero) rec = ox::rsa_raw_pub(pk->ok, sent);   // a front-truncated signature is a different integer
     bool enc_ok = pss_valid(h, h, mh_ver, sVer, rec, emBits);
     bool lib_ok = ox::rsa_pss_check_em(pk->ok, h, h, (int) sVer, mh_ver, rec);
@@ -392,7 +395,7 @@ static void prop_pss_forge(Tape &t, Ctx &c) {
     c.count(std::string("pss:") + pss_edit_name(edit)); c.count(expected ? "pss:expected-accept" : "pss:expected-reject");
     c.nontrivial(fmt("pss:%u:%lu:%s:%s:%zu:%zu:%zu", pk->bits, pk->e, ox::hash_name(h), pss_edit_name(edit), pos, sEnc, sVer));
     c.sample(fmt("pss key=%s hash=%s edit=%s sEnc=%zu sVer=%zu entry=%d expected=%d got=%d", pk->name.c_str(), ox::hash_name(h), pss_edit_name(edit), sEnc, sVer, entry, expected, got));
-    if (lead_zero && enc_ok && !plus_n) {    // same integer with leading zero octets: RFC 8017 8.1.2 step 1 says invalid; reported, not a violation (no forgery)
+    if (lead_zero && enc_ok && !plus_n) {    // same integer, more or fewer leading zero octets than k: RFC 8017 8.1.2 step 1 says invalid; reported, not a violation (no forgery)
         c.count(got ? "pss:lax-leading-zero-signature-accepted" : "pss:leading-zero-signature-rejected");
         return;
     }
